@@ -2,7 +2,9 @@
    `--dry-run` dedupe commands issue THEMSELVES (engine R, property C07).  No proofs in this file.
 
    Modelled code (current sources, F8 already fixed):
-     transform.rs  Transform::new          validation of $IN / --in-place, probe spawn, create_temp_dir
+     transform.rs  Transform::new          validation of $IN / --in-place, probe spawn (stdin/stdout/stderr null, killed and
+                                           waited for), create_temp_dir: on failure `?` returns the error — no fallback
+                                           location, nothing else happens
                    make_args               substitution of $IN / $OUT, Input::{StdIn,Named,Copied},
                                            Output::{StdOut,Named,InPlace}; a replaced Input/Output value is
                                            dropped (its Drop runs) at the moment it is replaced
@@ -103,7 +105,7 @@ Definition target (c : call) : path :=
   | CCopy _ d => d
   end.
 
-Inductive stdin_kind := StdinNull | StdinInherit | StdinFile (p : path).   (* StdinFile: a read-only fd *)
+Inductive stdin_kind := StdinNull | StdinFile (p : path).   (* StdinFile: a read-only fd *)
 
 Inductive event :=
 | Call (c : call)
@@ -129,9 +131,9 @@ Definition transform_new (fails : stage -> bool) (toks : list tok) (in_place : b
   if in_place && has_out then ([], Err EOutConflictsInPlace)
   else if in_place && negb has_in then ([], Err EInRequired)
   else if is_nil toks then ([], Err EEmptyCommand)
-  else if fails SProbe then ([Spawn [] StdinInherit], Err ENotRunnable)
-  else if fails SMkTmp then ([Spawn [] StdinInherit; Call (CMkdirAll PTmpDir)], Err ETmpDirFailed)
-  else ([Spawn [] StdinInherit; Call (CMkdirAll PTmpDir)], Ok (mkT has_in in_place)).
+  else if fails SProbe then ([Spawn [] StdinNull], Err ENotRunnable)
+  else if fails SMkTmp then ([Spawn [] StdinNull; Call (CMkdirAll PTmpDir)], Err ETmpDirFailed)
+  else ([Spawn [] StdinNull; Call (CMkdirAll PTmpDir)], Ok (mkT has_in in_place)).
 
 (* GroupConfig::build_transform *)
 Definition build_transform (fails : stage -> bool) (toks : list tok) (in_place no_copy : bool)
@@ -207,7 +209,7 @@ Definition steps_of (args : list asub) (i : input) (o : output) : list (option s
   | OutStdOut => []
   | OutNamed p => [(None, [Call (COpenW p)]);               (* stderr reaper thread, after the child exits *)
                    (Some SOpenOut, [Call (COpenR p)])]
-  | OutInPlace p => [(Some SWait, []); (Some SOpenOut, [Call (COpenR p)])]
+  | OutInPlace p => [(Some SWait, []); (Some SOpenOut, [Call (COpenR p)])]   (* child's stdout is null, not a pipe *)
   end.
 
 (* Transform::run for file f + hashing + drop of the Execution (success: fields _input, _output in
